@@ -130,7 +130,12 @@ func c03Check(c *rt.Ctx, sub int, x any, t reflect.Type, feat string, asciiOnly 
 			continue
 		}
 		if !oracle.Recognise(body, 0) {
-			c.Violate(rt.Violation{Monitor: "enc-wellformed", Entry: e.name, Kind: "malformed-output:" + outputClass(body), Ctx: featTag(feat),
+			ctx := featTag(feat)
+			if mustReject != "" {
+				// what should have been rejected (e.g. the float width) is part of the signature
+				ctx = mustReject + " @ " + ctx
+			}
+			c.Violate(rt.Violation{Monitor: "enc-wellformed", Entry: e.name, Kind: "malformed-output:" + outputClass(body), Ctx: ctx,
 				Detail: e.name + " succeeded with " + rt.Q(body) + " | type " + t.String(), Input: input, Sub: sub})
 			continue
 		}
@@ -260,7 +265,13 @@ func init() {
 					}
 					heap0 := heapInUse()
 					ref, _ := stdjson.Marshal(v.Interface())
-					c03Check(c, k, v.Interface(), t, feat, isASCII(ref) && ref != nil, "", entries)
+					must := ""
+					if feat == "val:nonfinite" && ref == nil {
+						// encoding/json reaches a non-finite float (it refuses the value): the width of
+						// the non-finite floats the value holds (the wider one if both) names the class
+						must = nonfiniteWidth(v, 0)
+					}
+					c03Check(c, k, v.Interface(), t, feat, isASCII(ref) && ref != nil, must, entries)
 					if v.CanAddr() {
 						c03Check(c, k, v.Addr().Interface(), reflect.PtrTo(t), feat, isASCII(ref) && ref != nil, "", entries[:2])
 					}
@@ -290,7 +301,7 @@ func init() {
 							}{1, f32, 2}}
 						for _, x := range vals {
 							if c.Cur(sub, "shapes=feature:val:nonfinite\n"+fmt.Sprintf("%T %v", x, x)) {
-								c03Check(c, sub, x, reflect.TypeOf(x), "val:nonfinite", true, "non-finite:"+kindClass(baseFloat(reflect.TypeOf(x))), entries)
+								c03Check(c, sub, x, reflect.TypeOf(x), "val:nonfinite", true, nonfiniteWidth(reflect.ValueOf(x), 0), entries)
 								c.NonTrivial("nonfinite", fmt.Sprintf("%T%v", x, x))
 							}
 							sub++
@@ -434,6 +445,44 @@ func init() {
 			}
 		},
 	})
+}
+
+// nonfiniteWidth reports "non-finite:float64" / "non-finite:float32" if the value holds a NaN or
+// an infinity of that width ("" if none).
+func nonfiniteWidth(v reflect.Value, depth int) string {
+	if depth > 30 || !v.IsValid() {
+		return ""
+	}
+	best := ""
+	up := func(s string) {
+		if s == "non-finite:float64" || (s != "" && best == "") {
+			best = s
+		}
+	}
+	switch v.Kind() {
+	case reflect.Float32, reflect.Float64:
+		if f := v.Float(); math.IsNaN(f) || math.IsInf(f, 0) {
+			return "non-finite:" + v.Kind().String()
+		}
+	case reflect.Ptr, reflect.Interface:
+		if !v.IsNil() {
+			return nonfiniteWidth(v.Elem(), depth+1)
+		}
+	case reflect.Slice, reflect.Array:
+		for i := 0; i < v.Len(); i++ {
+			up(nonfiniteWidth(v.Index(i), depth+1))
+		}
+	case reflect.Map:
+		it := v.MapRange()
+		for it.Next() {
+			up(nonfiniteWidth(it.Value(), depth+1))
+		}
+	case reflect.Struct:
+		for i := 0; i < v.NumField(); i++ {
+			up(nonfiniteWidth(v.Field(i), depth+1))
+		}
+	}
+	return best
 }
 
 func baseFloat(t reflect.Type) reflect.Type {
